@@ -2,8 +2,8 @@
 from .. import fields, tables
 
 
-def field_tables(ctx, families=("ref", "opt")):
-    cat, flds, rows, claims = fields.build_tables(ctx.tier, ctx.seed, families, log=ctx.log)
+def field_tables(ctx, families=("ref", "opt"), lite=False):
+    cat, flds, rows, claims = fields.build_tables(ctx.tier, ctx.seed, families, log=ctx.log, lite=lite)
     ctx.log(f"{len(rows)} rows from the real classes over {len(flds)} fields, {len(claims)} exhaustive claims")
     for r in rows[:: max(1, len(rows) // 6)][:6]:
         ctx.sample({"field": cat[r["f"] - 1]["name"], **{k: v for k, v in r.items() if k != "f"}})
